@@ -306,10 +306,10 @@ type ingestGen struct {
 	nsPool                 [][]byte
 }
 
-var ingestKeyPool = []string{"host", "zone", "dc", "k", "k2", "ip", "é", "名", "a b", "a,b", "x=y", "Z", "_", "h|x"}
-var ingestValPool = []string{"a", "b", "1.1.1.1", "us-east", "ü", "中文", "v 1", "v,2", "p=q", "", "A", "0", "x|y"}
-var ingestNamePool = []string{"cpu", "mem.used", "disk|io", "net rx", "a,b", "é", "load=1", "m", "system.cpu.load"}
-var ingestFieldPool = []string{"f", "value", "count_sum", "x_last", "the_first", "HistogramX", "__bucket_9", "uptime", "é"}
+var ingestKeyPool = []string{"host", "zone", "dc", "k", "k2", "ip", "é", "名", "a b", "a,b", "x=y", "Z", "_", "h|x", "k\\\\", "p\\q"}
+var ingestValPool = []string{"a", "b", "1.1.1.1", "us-east", "ü", "中文", "v 1", "v,2", "p=q", "", "A", "0", "x|y", "C:\\\\", "a\\b", "w\\\\,z", "e\\\\ f\\\\"}
+var ingestNamePool = []string{"cpu", "mem.used", "disk|io", "net rx", "a,b", "é", "load=1", "m", "system.cpu.load", "disk\\\\", "n\\m"}
+var ingestFieldPool = []string{"f", "value", "count_sum", "x_last", "the_first", "HistogramX", "__bucket_9", "uptime", "é", "bs\\\\"}
 
 func newIngestGen(rng *rand.Rand, limits *models.Limits, now, behind, ahead int64) *ingestGen {
 	g := &ingestGen{rng: rng, limits: limits, now: now, behind: behind, ahead: ahead}
